@@ -22,7 +22,7 @@ import os, time
 # Every scenario gets its own block of ports, taken from one running counter: a service started by `wire start` stays
 # bound for the life of the harness process, so no later scenario may come near its ports. The whole stage stays inside
 # 26000..32700, below the kernel's ephemeral range; the stage's region depends on the process and the time.
-SIZES = {"quick": {"c07": 6 * 12 + 2 * 12 + 2 * 14 + 2 * 8, "c08": 2 * 8 + 12, "c15": 32, "c12": 2 * 8}, "thorough": {"c07": 60 * 12 + 20 * 12 + 20 * 14 + 20 * 8, "c08": 30 * 8 + 5 * 12, "c15": 4 * 16, "c12": 6 * 8}}
+SIZES = {"quick": {"c07": 6 * 12 + 2 * 12 + 2 * 14 + 2 * 8, "c08": 2 * 8 + 12, "c15": 32, "c12": 2 * 8, "c10": 12}, "thorough": {"c07": 60 * 12 + 20 * 12 + 20 * 14 + 20 * 8, "c08": 30 * 8 + 5 * 12, "c15": 4 * 16, "c12": 6 * 8, "c10": 4 * 12}}
 _next = [26000, 32700]
 
 def region(tier, focus):
@@ -271,6 +271,24 @@ def gen_c08_two(g, lines, k):
     probe("c-%d" % k, P1); probe("d-%d" % k, P2)
     lines.append("wire end")
 
+def gen_c10_pair(g, lines, k):
+    """two listener entries of one service relay at the same time, each its own stream of datagrams: what the backend gets
+    for a datagram is that datagram (body and length), never bytes of what the other listener is relaying"""
+    base = take(12)
+    lip = "127.0.0.1"
+    P1, P2, BP, U1, U2 = base, base + 2, base + 4, base + 5, base + 6
+    be, ua1, ua2 = "127.0.1.1:%d" % BP, "127.0.2.1:%d" % U1, "127.0.2.2:%d" % U2
+    y = "proxies:\n- name: svc.test\n  listens:\n"
+    for P in (P1, P2):
+        y += "  - address: %s\n    udp-port: %d\n    backends:\n    - udp://%s\n" % (lip, P, be)
+    lines.append("wire start %s" % hx(y))
+    for x in (be, ua1, ua2):
+        lines.append("wire bind %s" % hx(x))
+    lines.append("wire pair %s %s %s %s %s %d %s # spec=C10 eq ok intact # spec=C09 eq ok intact # spec=C01 eq ok intact" % (
+        hx(ua1), hx(ua2), hx("%s:%d" % (lip, P1)), hx("%s:%d" % (lip, P2)), hx(be), 1500 if k == 0 else 6000, "q%d%s" % (k, g.word("abcdefghijklmnopqrstuvwxyz", 4, 6))))
+    g.count("wire_two_listeners_relaying_at_once")
+    lines.append("wire end")
+
 def gen_c15(g, lines, k):
     """two services in one configuration file, started the way main() starts them (startProxies): the first one sets
     dialogTimeout: 1, the second one leaves it to the default (1200 s). A dialog pinned on the second service is still
@@ -352,6 +370,10 @@ def generate(seed, tier, focus="c07"):
             if k < (1 if tier == "quick" else 2):
                 gen_c15(g, lines, k)
                 gen_c15_env(g, lines, k)
+            continue
+        if focus == "c10":
+            if k < (1 if tier == "quick" else 4):
+                gen_c10_pair(g, lines, k)
             continue
         if focus == "c12":
             if k < (2 if tier == "quick" else 6):
